@@ -628,6 +628,7 @@ type outsChecker struct {
 	psDir  string
 	nested int
 	leaves int
+	links  int
 	seen   map[string]string
 }
 
@@ -656,6 +657,9 @@ func (oc *outsChecker) expect(pos, id, outName string, ty mrogen.Ty, v any, dir 
 		oc.leaves++
 		if depth > 0 || outName != "" {
 			oc.nested++
+		}
+		if e.IsLink {
+			oc.links++
 		}
 		if prev, dup := oc.seen[dest]; dup {
 			fail(oc.t, "C13", "two-outputs-one-path", "outputs %s and %s both belong at %s\n%s", prev, pos, dest, oc.rc.describe())
@@ -758,6 +762,9 @@ func checkOuts(t *rapid.T, rc *runCase, led *filesim.Ledger, prog *mrogen.Progra
 	if ok, d := equalUnordered(want, post, "outs"); !ok {
 		fail(t, "C13", "outs-record-differs", "%s\n  before post-processing: %s\n  after:                  %s\nouts/ holds:\n%s\n%s", d, jsonx.Marshal(rawTop), jsonx.Marshal(post), tree(outsDir), rc.describe())
 	}
+	if oc.links > 0 {
+		stats.Count("C13", "cases_with_symlink_outputs", 1)
+	}
 	return oc.nested
 }
 
@@ -769,6 +776,11 @@ func equalUnordered(a, b any, pos string) (bool, string) {
 			return false, fmt.Sprintf("%s: %s, expected the location of the file under outs/ (%s)", pos, jsonx.Marshal(b), x.dest)
 		}
 		outs := x.dest[:strings.Index(x.dest, "/outs/")+len("/outs/")]
+		if x.entry.IsLink {
+			// an output that is a symbolic link is recorded as the file it
+			// points to, and linked from outs/
+			outs = outs[:len(outs)-len("outs/")]
+		}
 		if !strings.HasPrefix(s, outs) {
 			return false, fmt.Sprintf("%s: %q is not a location under %s (expected %s)", pos, s, outs, x.dest)
 		}
